@@ -2,33 +2,34 @@
 """C07-R4 -- buffer rules for peer controlled bytes (see nfcsa/buf.py)."""
 from ..core import key
 from .. import buf
+from ..buf import P, FROM, names_for, spec_text
 
 # (function, buffer expressions, where the bytes come from)
 PEER_BUFFERS = [
-    ('nfc.dep.Initiator.decode_frame', ['frame'], 'NFC-DEP response frame'),
-    ('nfc.dep.Target.decode_frame', ['frame'], 'NFC-DEP request frame'),
-    ('nfc.dep.ATR_REQ.decode', ['data'], 'ATR_REQ'),
-    ('nfc.dep.ATR_RES.decode', ['data'], 'ATR_RES'),
-    ('nfc.dep.PSL_REQ_RES.decode', ['data'], 'PSL PDU'),
-    ('nfc.dep.DEP_REQ_RES.decode', ['data'], 'DEP PDU'),
-    ('nfc.dep.DSL_REQ_RES.decode', ['data'], 'DSL/RLS PDU'),
-    ('nfc.dep.Initiator.exchange', ['res.data'], 'DEP_RES with RTOX'),
-    ('nfc.dep.Target.send_timeout_extension', ['req.data'], 'DEP_REQ with RTOX'),
-    ('nfc.dep.Initiator.activate', ['target.sel_res', 'target.sensf_res'], 'discovery response'),
-    ('nfc.llcp.llc.LogicalLinkController.activate', ['gb'], 'general bytes'),
-    ('nfc.tag.tt3.Type3TagEmulation.process_command', ['cmd'], 'Type 3 Tag command from the reader'),
-    ('nfc.tag.tt3.Type3TagEmulation._process_command', ['cmd'], 'Type 3 Tag command from the reader'),
-    ('nfc.tag.tt3.Type3TagEmulation.polling', ['cmd_data'], 'polling command'),
-    ('nfc.tag.tt3.Type3TagEmulation.read_without_encryption', ['cmd_data'], 'read command'),
-    ('nfc.tag.tt3.Type3TagEmulation.write_without_encryption', ['cmd_data'], 'write command'),
-    ('nfc.snep.server.SnepServer._serve', ['data'], 'SNEP request fragment'),
-    ('nfc.snep.server.SnepServer.process_snep_request', ['request_data'], 'SNEP request'),
-    ('nfc.snep.client.recv_response', ['snep_response'], 'SNEP response'),
-    ('nfc.snep.client.SnepClient.get_octets', ['response'], 'SNEP response'),
-    ('nfc.snep.client.SnepClient.put_octets', ['response'], 'SNEP response'),
+    ('nfc.dep.Initiator.decode_frame', [P(0)], 'NFC-DEP response frame'),
+    ('nfc.dep.Target.decode_frame', [P(0)], 'NFC-DEP request frame'),
+    ('nfc.dep.ATR_REQ.decode', [P(0)], 'ATR_REQ'),
+    ('nfc.dep.ATR_RES.decode', [P(0)], 'ATR_RES'),
+    ('nfc.dep.PSL_REQ_RES.decode', [P(0)], 'PSL PDU'),
+    ('nfc.dep.DEP_REQ_RES.decode', [P(0)], 'DEP PDU'),
+    ('nfc.dep.DSL_REQ_RES.decode', [P(0)], 'DSL/RLS PDU'),
+    ('nfc.dep.Initiator.exchange', [FROM('self.send_dep_req_recv_dep_res', attr='data')], 'DEP_RES with RTOX'),
+    ('nfc.dep.Target.send_timeout_extension', [FROM('self.send_dep_res_recv_dep_req', attr='data')], 'DEP_REQ with RTOX'),
+    ('nfc.dep.Initiator.activate', [P(0, 'sel_res'), P(0, 'sensf_res')], 'discovery response'),
+    ('nfc.llcp.llc.LogicalLinkController.activate', [FROM('mac.activate')], 'general bytes'),
+    ('nfc.tag.tt3.Type3TagEmulation.process_command', [P(0)], 'Type 3 Tag command from the reader'),
+    ('nfc.tag.tt3.Type3TagEmulation._process_command', [P(0)], 'Type 3 Tag command from the reader'),
+    ('nfc.tag.tt3.Type3TagEmulation.polling', [P(0)], 'polling command'),
+    ('nfc.tag.tt3.Type3TagEmulation.read_without_encryption', [P(0)], 'read command'),
+    ('nfc.tag.tt3.Type3TagEmulation.write_without_encryption', [P(0)], 'write command'),
+    ('nfc.snep.server.SnepServer._serve', [FROM('bytearray(client_socket.recv')], 'SNEP request fragment'),
+    ('nfc.snep.server.SnepServer.process_snep_request', [P(0)], 'SNEP request'),
+    ('nfc.snep.client.recv_response', [FROM('socket.recv')], 'SNEP response'),
+    ('nfc.snep.client.SnepClient.get_octets', [FROM('recv_response')], 'SNEP response'),
+    ('nfc.snep.client.SnepClient.put_octets', [FROM('recv_response')], 'SNEP response'),
 ]
 MAYBE_NONE = [
-    ('nfc.tag.tt3.Type3TagEmulation.process_command', 'cmd', 'exchange() returns None when the link broke in target mode;'),
+    ('nfc.tag.tt3.Type3TagEmulation.process_command', P(0), 'exchange() returns None when the link broke in target mode;'),
 ]
 
 
@@ -43,20 +44,27 @@ def run(report, prog, res, collect=None):
     sc = cfg_of(serve)
     call = [c for c in ast.walk(serve.node) if isinstance(c, ast.Call) and norm(c.func) == 'self.process_snep_request']
     base_req = 0
-    if len(call) == 1 and norm(call[0].args[0]) == 'data':
-        base_req = lower_bound_at(sc, 'len(data)', cfg_node_for(sc, call[0]), extra_guards=buf.extra_guards(sc, 'data', prog, serve),
-                                  kills=buf.kill_nodes(sc, 'data')) or 0
+    dnames = names_for(serve, FROM('bytearray(client_socket.recv'))
+    if len(call) == 1 and len(dnames) == 1 and norm(call[0].args[0]) == dnames[0]:
+        dn = dnames[0]
+        base_req = lower_bound_at(sc, 'len(%s)' % dn, cfg_node_for(sc, call[0]), extra_guards=buf.extra_guards(sc, dn, prog, serve),
+                                  kills=buf.kill_nodes(sc, dn)) or 0
     report.check(base_req >= 6, 'C07-R4', key(serve.qname, 'request handler is only called with a complete 6 byte header'), serve.loc(),
                  'process_snep_request can be called with fewer than 6 byte (bound %d)' % base_req, detail='bound %d' % base_req)
     rb = buf.return_bound(prog, prog.func('nfc.snep.client.recv_response'))
     report.check(rb >= 6, 'C07-R4', key('nfc.snep.client.recv_response', 'returns None or at least the 6 byte header'), prog.func('nfc.snep.client.recv_response').loc(),
                  'recv_response can return fewer than 6 byte (bound %d)' % rb, detail='bound %d' % rb)
-    base = {('nfc.snep.server.SnepServer.process_snep_request', 'request_data'): base_req}
-    sources = {'recv_response(self.socket, self.acceptable_length, timeout)': rb, 'recv_response(self.socket, 0, timeout)': rb}
-    for q, bufs, src in PEER_BUFFERS:
+    base = {'nfc.snep.server.SnepServer.process_snep_request': base_req}
+    sources = {r're:recv_response\(.*\)': rb}
+    for q, specs, src in PEER_BUFFERS:
         f = prog.func(q)
-        for v in bufs:
-            n += buf.check(report, prog, f, v, 'C07-R4', src, base=base.get((q, v), 0), sources=sources, collect=collect)
-    for q, v, src in MAYBE_NONE:
-        buf.check_none(report, prog, prog.func(q), v, 'C07-R4', src, collect=collect)
+        for spec in specs:
+            names = names_for(f, spec)
+            if not names:
+                report.deficits.append('C07-R4: %s has no buffer for %s any more (%s): the table entry is stale' % (q, spec_text(spec), src))
+            for v in names:
+                n += buf.check(report, prog, f, v, 'C07-R4', src, base=base.get(q, 0), sources=sources, collect=collect)
+    for q, spec, src in MAYBE_NONE:
+        for v in names_for(prog.func(q), spec):
+            buf.check_none(report, prog, prog.func(q), v, 'C07-R4', src, collect=collect)
     report.floor('C07-R4 reads', n, 40)
